@@ -44,7 +44,7 @@ namespace sqf
                 if (obj->group_id().empty())
                 {
                     std::stringstream sstream;
-                    sstream << static_cast<const void*>(obj.get()) << "# " << obj->netid() << ": " << d_side::to_string(obj->side());
+                    sstream << "# " << obj->netid() << ": " << d_side::to_string(obj->side());
                     return sstream.str();
                 }
                 else
